@@ -14,18 +14,30 @@ import common
 from common import ModelErr
 
 PROP = "C12"
-CLAIMED = False
+CLAIMED = True
 ENGINE = "OpAlg"
 DESIGN_REF = "DESIGN.md §5.1"
-TECHNIQUE = "Lean 4 proof (induction/omega over the integer slice calculus) + exhaustive small-scope correspondence with the code"
+TECHNIQUE = (
+    "Lean 4 proof: induction/omega over the integer slice calculus, list induction for the collapse rules, induction "
+    "over operator expression trees for the declared metadata (engine OpAlg) + exhaustive small-scope / class-table / "
+    "random-tree correspondence with the code"
+)
 LEVEL_TEXT = (
-    "Lean theorems: the declared length of a sliced axis equals the number of positions Python indexing selects, for "
-    "every axis length and every start/stop/step; every selected position is in range; rejection iff step 0. "
-    "The model is tied to scico.numpy.util.slice_length / indexed_shape / linop.Slice by exhaustive comparison over a small grid."
+    "Lean theorems: (1) the declared length of a sliced axis equals the number of positions Python indexing selects, "
+    "for every axis length and start/stop/step; selected positions in range; rejection iff step 0; (2) collapse rules: "
+    "stacked iff allowed and all shapes equal one plain shape (size preserved), twice-nested rejected; (3) for every "
+    "accepted linear operator expression (all classes, any depth): matrix_shape = (size out, size in) = shape of the "
+    "denoted matrix, eval/adj return arrays of exactly the declared sizes, __call__ evaluates an array iff its shape is "
+    "input_shape, adj iff output shape (and dtype) match; result_type lattice laws.  The models are tied to "
+    "slice_length / indexed_shape / collapse_shapes / shape_to_size and to the metadata of real operator objects."
 )
 LEVEL_NOTE = (
-    "Trusted: Lean kernel + Mathlib (axioms propext, Classical.choice, Quot.sound); CPython slice.indices/range semantics "
-    "(model checked against them on every case); correspondence is exhaustive only for n<=5..7, |bounds|<=7..9, |step|<=3."
+    "Trusted: Lean kernel + Mathlib (axioms propext, Classical.choice, Quot.sound); CPython slice.indices/range and NumPy "
+    "basic indexing (the model is checked against them on every case); jax dtype promotion (table validated every run). "
+    "Not theorems: indexed_shape = NumPy indexing for tuples with None/Ellipsis (full statement kept as "
+    "C12_indexedShape_spec_stmt, tied exhaustively on small scopes); declared dtype = returned dtype of derived operators "
+    "(the model computes both, the tie compares both with the code; it is false for operands of different dtypes - "
+    "recorded findings mixed-operand-dtypes, adj-dtype-check-mixed); stacks/freeze/Function metadata (oracle only)."
 )
 PROP_MODULES = ["Scico.Props.C12"]
 EXTRA_TARGETS = ["Drv.Shape", "Drv.OpAlg"]
@@ -33,12 +45,17 @@ DRIVER = "Shape"
 FILES = ["scico/numpy/util.py", "scico/linop/_func.py", "scico/operator/_operator.py", "scico/linop/_linop.py",
          "scico/linop/_diag.py", "scico/linop/_matrix.py", "scico/operator/_stack.py"]
 RULE = (
-    "slices: every (n, start, stop, step) with n<=N, start/stop in [-B,B] or None, step in [-3,3] or None "
-    "(step 0 = malformed stream); a case is non-trivial when the slice selects >=1 position and is not the "
-    "full forward slice; distinct by (n,start,stop,step). Slice operators: random index tuples over 1-3 axes."
+    "slices: every (n, start, stop, step) with n<=N, start/stop in [-B,B] or None, step in [-3,3] or None (step 0 = "
+    "malformed stream), non-trivial when the slice selects >=1 position and is not the full forward slice. indexed_shape: "
+    "every tuple of length <=3/4 over 11 index atoms (None, Ellipsis, in/out-of-range ints, slices) on 3/5 shapes, "
+    "non-trivial when non-empty. collapse: all pairs/triples of 6 plain/nested shapes x allow. operator metadata: unary part "
+    "of the class table, real->complex and explicit-input_dtype operands under every class, random trees (160/1500), "
+    "non-trivial when the tree has an operation node, distinct by skeleton; stacks/freeze/Function configurations."
 )
 ASSUMPTIONS = [
     "CPython's slice.indices / range and NumPy basic indexing are the reference semantics of slicing (contract)",
+    "jax.numpy.result_type is the dtype of jax arithmetic (validated against the model table on every run of C05)",
+    "jax.linear_transpose returns the transpose of the dense matrix of a linear closure (real part for real primals)",
 ]
 
 
@@ -404,12 +421,12 @@ def _part2(ctx):
 
 def _classify_decl(e, r, mod):
     """`adj-dtype-check-mixed`: the only failure is that evaluation raises the dtype error of
-    LinearOperator.adj, the model predicts exactly that raise, and the tree mixes real and complex
-    dtypes / scalars (a complex-scaled real operator inside .T/.H/gram_op)."""
+    LinearOperator.adj, the model predicts exactly that raise, and the tree mixes dtypes
+    (real/complex or float32/float64 operands inside .T/.H/gram_op)."""
     import opalg_gen as G
 
     if set(r) == {"evaluation_raised"} and "Dtype error" in r["evaluation_raised"]["error"] \
-            and mod.get("eval_dt") == "err:dtype" and not G.kind_uniform(e) and G.uses_adjoint(e):
+            and mod.get("eval_dt") == "err:dtype" and not G.dtype_uniform(e) and G.uses_adjoint(e):
         return "adj-dtype-check-mixed"
     if set(r) == {"dtype"} and mod.get("eval_dt") == r["dtype"]["returned_dtype"] and not G.dtype_uniform(e):
         # the model computes the same (wrong) returned dtype: operands of different dtypes were combined
